@@ -907,7 +907,8 @@ class Gen:
 
     # -- QueryBuilder ---------------------------------------------------------------
     def r_from(self, v, kd, ri, scope):
-        c = self.wch([("table", 6), ("str", 1), ("subq_aliased", 1.5), ("subq_inline", 1), ("heapq", 1.5), ("cte", 0.5)])
+        c = self.wch([("table", 6), ("str", 1), ("subq_aliased", 1.5), ("subq_inline", 1),
+                      ("heapq", 5 if self.k["autoalias"] else 1.5), ("cte", 0.5)])
         if c == "table":
             tb = self.g_table()
             return {"a": [tb]}, scope + [tb]
@@ -1031,7 +1032,7 @@ class Gen:
         return {}, scope
 
     def r_join(self, v, kd, ri, scope):
-        c = self.wch([("table", 6), ("subq", 1.5), ("heapq", 1), ("cte", 0.4), ("setop", 0.3)])
+        c = self.wch([("table", 6), ("subq", 1.5), ("heapq", 6 if self.k["autoalias"] else 1), ("cte", 0.4), ("setop", 0.3)])
         if c == "table":
             item = self.g_table(join_pos=True)
         elif c == "subq":
@@ -1056,7 +1057,12 @@ class Gen:
             jt = item
         else:
             jt = None
-        if fin == "on":
+        if fin == "on" and self.p(0.25 if self.k["autoalias"] else 0.12):
+            # a join that is rejected part-way (criterion names a table that is not available): the receiver and
+            # the by-reference argument must come out of the failed call unchanged
+            op["a"] = [{"t": "bin", "op": "eq", "l": self.g_field([{"t": "table", "name": "zz_foreign"}], alias_ok=False),
+                        "r": self.g_field(scope[:1] or None, alias_ok=False)}]
+        elif fin == "on":
             sc = scope + ([jt] if jt is not None else [])
             if jt is not None and scope:
                 crit = {"t": "bin", "op": "eq", "l": self.g_field([self.ch(scope)], alias_ok=False),
